@@ -55,7 +55,7 @@ def read_input(u, opts, infer):
     """-> (record, had_protocol) or raises Unparseable."""
     if opts["infer_redirection"]:
         u = infer(u)
-    cu = clean(u, "http")
+    cu = clean(u, "https")  # normalize_url assumes https for a url without scheme (like canonicalize_url)
     had = bool(PROTO_RE.match(re.sub(r"[\x00-\x1f\x7f-\x9f]", "", u).strip()))
     rec = R(cu)
     if opts["fix_common_mistakes"]:
